@@ -2686,6 +2686,31 @@ impl<L: Logger> NetworkGraph<L> {
 	}
 }
 
+#[cfg(feature = "verif_hooks")]
+impl<L: Logger> NetworkGraph<L> {
+	/// Verification hook (read-only): the removal tombstones `removed_channels` / `removed_nodes`
+	/// with their tracking times, sorted by key.
+	pub fn verif_removed_entries(&self) -> (Vec<(u64, Option<u64>)>, Vec<(NodeId, Option<u64>)>) {
+		let removed_channels = self.removed_channels.lock().unwrap();
+		let removed_nodes = self.removed_nodes.lock().unwrap();
+		let mut chans: Vec<(u64, Option<u64>)> =
+			removed_channels.iter().map(|(k, v)| (*k, *v)).collect();
+		chans.sort();
+		let mut nodes: Vec<(NodeId, Option<u64>)> =
+			removed_nodes.iter().map(|(k, v)| (*k, *v)).collect();
+		nodes.sort();
+		(chans, nodes)
+	}
+}
+
+#[cfg(feature = "verif_hooks")]
+impl ChannelInfo {
+	/// Verification hook (read-only): the private `announcement_received_time`.
+	pub fn verif_announcement_received_time(&self) -> u64 {
+		self.announcement_received_time
+	}
+}
+
 impl ReadOnlyNetworkGraph<'_> {
 	/// Returns all known valid channels' short ids along with announced channel info.
 	///
